@@ -18,7 +18,10 @@ def load_contracts(mods):
 
 
 def verify_function(relpath, qualname, budget=solve.QUICK, verbose=True):
-    con = reg.contracts[(relpath, qualname)]
+    if relpath == "<lemma>":
+        con = [l for l in reg.lemmas if l.qualname == qualname][0]
+    else:
+        con = reg.contracts[(relpath, qualname)]
     it = Interp(reg)
     t0 = time.time()
     obs = it.verify(con)
